@@ -19,7 +19,9 @@ reg("C20", "exploration",
     "exhaustive enumeration of the finite constants table against a hand-typed CODATA/IAU reference",
     "Every module-level constant x {dimension, SI value}, every __all__ entry and every listed "
     "identity is compared with an independent reference table; the space is finite and fully "
-    "enumerated, which is the right level for a configuration table.",
+    "enumerated, which is the right level for a configuration table. The table is re-read after "
+    "every public operation (with and without optional arguments) on every constant and after long "
+    "creation histories crossing the digit-count / power-of-two boundaries of the name counter.",
     "Trusts data/constants_ref.json (CODATA 2018 / IAU 2015) and float arithmetic; tolerance per "
     "constant is the precision the library's literal claims.", "DESIGN.md 3/C20")
 
@@ -77,7 +79,10 @@ reg("C02", "exploration",
     "milli / cm-g-min) is executed on the real function; SI values of arguments and result are "
     "substituted into the module's published equation (30-digit arithmetic), respelled tuples must "
     "give equal results, documented magnitude / ceiling functions are checked against the root, "
-    "and vector-law forms are composed on generic symbolic vectors of length 1..3.",
+    "and vector-law forms are composed on generic symbolic vectors of length 1..3. Vector wrappers "
+    "are compared with their law function over all products of 7 direction patterns x optional-"
+    "argument menus; the 8 field-law modules are driven over all fields with <= 2 polynomial terms "
+    "against the law in the module header.",
     "Magnitudes outside the menu are not explored; laws with derivatives / integrals / sums / "
     "applied functions get the metamorphic oracle only; negative-argument tuples are judged only "
     "when the law is satisfiable for them; allow-list data/c02_magnitude_or_ceil.json.",
@@ -149,7 +154,9 @@ reg("C11", "exploration",
     "Vectors are re-expressed in both directions and round-tripped; dot product, magnitude and "
     "scaling in the curvilinear system are compared with the Cartesian values of the re-expressed "
     "operands; 11 scalar fields are re-expressed both ways and evaluated at corresponding points; "
-    "direct cylindrical-spherical conversion and wrong point kinds must be refused.",
+    "direct cylindrical-spherical conversion and wrong point kinds must be refused. The same between "
+    "Cartesian frames rotated about each axis (and curvilinear systems derived from them) and the "
+    "parent's systems; points given with fewer coordinates.",
     "Finite lattice away from singularities plus one generic-symbol round trip per pair; the "
     "transformation entries are elementary functions, each exercised by several lattice points.",
     "DESIGN.md 3/C11")
@@ -199,7 +206,8 @@ reg("C15", "exploration",
     "trips, scalars against the geometry, orthonormality / determinant +1 / inverse / agreement "
     "with the geometric rotation of the base-vector maps, direct conversion against the one via "
     "the third system, convert_point and convert_vector (4 vectors per point), Lame coefficients "
-    "and Jacobian against the position derivatives.",
+    "and Jacobian against the position derivatives; systems built with the optional constructor "
+    "arguments; conversion histories of one point object over several instances.",
     "Finite lattice inside each domain; 40-digit comparison; every table entry is exercised by "
     "several lattice points in all four quadrants.", "DESIGN.md 3/C15")
 
@@ -223,7 +231,8 @@ reg("C17", "exploration",
     "and each of the ~620 documented equations obtained exactly as the documentation obtains them "
     "(patch + exec with evaluation disabled), is rendered by code_str; the text is parsed under "
     "ordinary precedence with ^ for powers and function-call syntax and evaluated at lattice points "
-    "(40 digits, complex) against the original.",
+    "(40 digits, complex) against the original. Plus pairs of sibling applications of one function, "
+    "dense matrices of every shape up to 3 x 3, and display-name collisions inside one equation.",
     "Trees beyond the bound by the small-scope hypothesis (bracketing decisions depend on the "
     "parent/child node types only); catalogue equations with derivatives / integrals / sums / "
     "matrices are structure-checked only.", "DESIGN.md 3/C17")
